@@ -2773,7 +2773,13 @@ class Kconfig(object):
 
                     if "$" in name:
                         # Macro expansion within symbol name
+                        name_start = i
                         name, s, i = self._expand_name(s, i)
+                        if name[0] in "\"'":
+                            # The macro holds a quoted string (NAME := "text"): what now stands here is a
+                            # string literal, not a symbol name. Tokenize the expanded text as such.
+                            i = name_start
+                            continue
                     else:
                         i = match.end()
 
